@@ -117,7 +117,9 @@ func LoadProgram(cfg *Config) (*Program, error) {
 
 func loadEnv() []string {
 	env := os.Environ()
-	env = append(env, "GOFLAGS=-mod=mod", "GOPROXY=off", "GOSUMDB=off")
+	// GOSUMDB / GOTOOLCHAIN are left to the caller: the cmd/atlas module needs the
+	// cached go1.23.6 toolchain switch, which GOSUMDB=off would refuse.
+	env = append(env, "GOFLAGS=-mod=mod", "GOPROXY=off")
 	return env
 }
 
